@@ -54,9 +54,17 @@ def gen(rng, tier):
             'rtt_est': rng.choice([0.05, 0.2, 1.0, 1.0, 3.0]), 'd_data': d1, 'd_ack': d2,
             'cwnd': rng.choice([MSS, MSS, 2 * MSS, 4 * MSS, 10 * MSS]), 'ssthresh': rng.choice([65535, 65535, 2048, 4096]),
             'faults_data': {}, 'faults_ack': {}}
+    if rng.random() < 0.12:
+        # a data-centre path: microsecond delays, flows long enough to leave slow start
+        case['d_data'] = rng.choice([1e-6, 1e-5, 2.5e-5, 1e-4])
+        case['d_ack'] = rng.choice([1e-6, 1e-5, 2.5e-5, 1e-4])
+        case['segments'] = rng.choice([n, 140, 200, 260])
+        case['rtt_est'] = rng.choice([0.001, 0.01, 1.0])
+        case['short_path'] = True
     if r < 0.4:
         case['sub'] = 'clean'
-        case['rtt_est'] = rng.choice([0.3, 1.0, 3.0])
+        if not case.get('short_path'):
+            case['rtt_est'] = rng.choice([0.3, 1.0, 3.0])
         return case
     budget = rng.randint(1, 12)
     for _ in range(budget):
